@@ -86,4 +86,32 @@ var Properties = map[string]*Property{
 		Assumptions: []string{"inputs satisfy CheckValid", "|value| < 2^40 so that sums are mathematical sums", "time, period, duration non-negative", "the reference identity of a mapping is (build id, else file; offset; size rounded up to a page) as the merge documents"},
 		Outside: []string{"more than two profiles in the stack oracle", "labels in the stack oracle (label handling is covered by C01's encoder and sampleKey's code path with concrete labels)", "order independence beyond the header rules"},
 	},
+	"C11": {
+		ID: "C11",
+		Harnesses: []HarnessSpec{
+			{Pkg: "profile", Fn: "VerifC11Prune", Solver: "z3", Quick: map[string]int{"c11.names": 2, "c11.shapes": 7}, Thorough: map[string]int{"c11.names": 3, "c11.shapes": 7}, QuickTimeoutS: 200, ThoroughTimeoutS: 900,
+				What: "(*Profile).Prune with drop/keep as arbitrary predicates on simplified names (symbolic regexps) over 7 stack shapes (plain, inlined at root/leaf, 3 inlined frames, shared locations, recursion) and all name assignments: frames left = frame-level rule of the statement; counts, values, labels unchanged; never empty"},
+			{Pkg: "profile", Fn: "VerifC11PruneFrom", Solver: "z3", Quick: map[string]int{"c11.names": 2, "c11.shapes": 7}, Thorough: map[string]int{"c11.names": 3, "c11.shapes": 7}, QuickTimeoutS: 200, ThoroughTimeoutS: 900,
+				What: "(*Profile).PruneFrom: keeps the lowest matching frame and everything rootwards"},
+			{Pkg: "profile", Fn: "VerifC11NoExpr", Solver: "z3", QuickTimeoutS: 100, ThoroughTimeoutS: 300,
+				What: "RemoveUninteresting without expressions writes nothing (frame monitor) and changes no frame"},
+		},
+		Assumptions: []string{"a regular expression is an arbitrary function from strings to booleans (one solver variable per (expression, name)); models are replayed with ^(alt|alt)$ expressions", "function names from a pool of 2 (quick) / 3 (thorough) letters; simplifyFunc runs natively on them"},
+		Outside: []string{"how concrete drop/keep strings compile (RE2)", "legacy built-in frame tables (addLegacyFrameInfo)", "stacks deeper than 4 frames"},
+	},
+	"C06": {
+		ID: "C06",
+		Harnesses: []HarnessSpec{
+			{Pkg: "profile", Fn: "VerifC06FilterByName", Solver: "z3", MaxDecisions: 2000, Quick: map[string]int{"c11.names": 2}, Thorough: map[string]int{"c11.names": 3}, QuickTimeoutS: 300, ThoroughTimeoutS: 1200,
+				What: "FilterSamplesByName with focus/ignore/hide/show (7 combinations) as arbitrary predicates over function names, the file name and the mapping file, 5 stack shapes (inlined, shared, empty stack): kept samples, their labels and their remaining frames equal the frame-level reference"},
+			{Pkg: "profile", Fn: "VerifC06Partition", Solver: "z3", Quick: map[string]int{"c11.names": 2}, Thorough: map[string]int{"c11.names": 3}, QuickTimeoutS: 120, ThoroughTimeoutS: 600,
+				What: "focus=R and ignore=R partition the samples and their totals add up, for every predicate R"},
+			{Pkg: "profile", Fn: "VerifC06ShowFrom", Solver: "z3", Quick: map[string]int{"c11.names": 2}, Thorough: map[string]int{"c11.names": 3}, QuickTimeoutS: 120, ThoroughTimeoutS: 600,
+				What: "ShowFrom keeps the frames from the highest match leafwards and drops samples without a match"},
+			{Pkg: "profile", Fn: "VerifC06Tags", Solver: "z3", QuickTimeoutS: 60, ThoroughTimeoutS: 120,
+				What: "FilterTagsByName removes exactly the labels described by tagshow/taghide"},
+		},
+		Assumptions: []string{"a regular expression is an arbitrary predicate on strings (one solver variable per (expression, string))", "with hide/show a frameless sample may or may not be dropped (the statement allows both)"},
+		Outside: []string{"compilation of filter option strings (driver_focus.go; numeric ranges are under C09/C15)", "FilterSamplesByTag with unit conversion", "relative_percentages", "RE2 matching itself"},
+	},
 }
